@@ -334,14 +334,65 @@ func (p *Program) printEventsDepth(str *types.Func, depth int) []slotEvent {
 	}
 	recv := p.Info.Defs[fd.Recv.List[0].Names[0]]
 	var ev []slotEvent
+	// value locals: string variables that are only ever assigned whole (never
+	// grown with +=): what they hold is written where they are used, not where
+	// they are assigned
+	grown := map[types.Object]bool{}
+	assigned := map[types.Object]bool{}
+	ast.Inspect(fd.Body, func(n ast.Node) bool {
+		as, ok := n.(*ast.AssignStmt)
+		if !ok {
+			return true
+		}
+		for _, l := range as.Lhs {
+			id, ok := l.(*ast.Ident)
+			if !ok {
+				continue
+			}
+			o := p.Info.ObjectOf(id)
+			if o == nil {
+				continue
+			}
+			if b, ok := o.Type().Underlying().(*types.Basic); !ok || b.Info()&types.IsString == 0 {
+				continue
+			}
+			if as.Tok == token.ADD_ASSIGN {
+				grown[o] = true
+			} else {
+				assigned[o] = true
+				// only locals that hold constant words are deferred; a local that
+				// holds the text built so far is written where it is assigned
+				constRHS := false
+				if len(as.Lhs) == len(as.Rhs) {
+					for i, l2 := range as.Lhs {
+						if l2 == l {
+							if tv := p.Info.Types[as.Rhs[i]]; tv.Value != nil && tv.Value.Kind() == constant.String {
+								constRHS = true
+							}
+						}
+					}
+				}
+				if !constRHS {
+					grown[o] = true
+				}
+			}
+		}
+		return true
+	})
+	pending := map[types.Object][]slotEvent{}
+	var deferredInto []types.Object // value locals assigned since the enclosing if began
 	// fieldOf: e is recv.F / *recv.F / recv.F.G...: returns top-level field name
-	alias := map[types.Object]string{} // range variables over a receiver field
+	alias := map[types.Object]string{}   // range variables over a receiver field
+	subst := map[types.Object]ast.Expr{} // parameters of an inlined writer helper -> the arguments
 	var fieldOf func(e ast.Expr) string
 	fieldOf = func(e ast.Expr) string {
 		switch x := ast.Unparen(e).(type) {
 		case *ast.Ident:
 			if f, ok := alias[p.Info.ObjectOf(x)]; ok {
 				return f
+			}
+			if a, ok := subst[p.Info.ObjectOf(x)]; ok {
+				return fieldOf(a)
 			}
 		case *ast.SelectorExpr:
 			if id := identOf(x.X); id != nil && p.Info.ObjectOf(id) == recv {
@@ -385,6 +436,18 @@ func (p *Program) printEventsDepth(str *types.Func, depth int) []slotEvent {
 		if tv := p.Info.Types[e]; tv.Value != nil && tv.Value.Kind() == constant.String {
 			words(constant.StringVal(tv.Value), e.Pos())
 			return
+		}
+		if id, ok := e.(*ast.Ident); ok {
+			if evs, ok := pending[p.Info.ObjectOf(id)]; ok {
+				ev = append(ev, evs...)
+				return
+			}
+			if a, ok := subst[p.Info.ObjectOf(id)]; ok {
+				if tv := p.Info.Types[a]; tv.Value != nil {
+					emit(a)
+					return
+				}
+			}
 		}
 		switch x := e.(type) {
 		case *ast.CompositeLit:
@@ -543,6 +606,29 @@ func (p *Program) printEventsDepth(str *types.Func, depth int) []slotEvent {
 			}
 		case *ast.IfStmt:
 			walk(x.Init)
+			condStart := len(ev)
+			savedDeferred := deferredInto
+			deferredInto = nil
+			defer func(start int) {
+				// nothing written directly under this if, only value locals set:
+				// the condition belongs to where those locals are written
+				if start <= len(ev) && len(deferredInto) > 0 {
+					onlyCond := true
+					for _, e := range ev[start:] {
+						if !(e.kind == "READ" && e.cond) {
+							onlyCond = false
+						}
+					}
+					if onlyCond {
+						conds := append([]slotEvent{}, ev[start:]...)
+						ev = ev[:start]
+						for _, o := range deferredInto {
+							pending[o] = append(append([]slotEvent{}, conds...), pending[o]...)
+						}
+					}
+				}
+				deferredInto = append(savedDeferred, deferredInto...)
+			}(condStart)
 			ast.Inspect(x.Cond, func(m ast.Node) bool {
 				if e, ok := m.(ast.Expr); ok {
 					if f := fieldOf(e); f != "" {
@@ -605,6 +691,28 @@ func (p *Program) printEventsDepth(str *types.Func, depth int) []slotEvent {
 					}
 				}
 			}
+			if len(x.Lhs) == len(x.Rhs) && (x.Tok == token.DEFINE || x.Tok == token.ASSIGN) {
+				all := true
+				for _, l := range x.Lhs {
+					id, ok := l.(*ast.Ident)
+					if !ok || !assigned[p.Info.ObjectOf(id)] || grown[p.Info.ObjectOf(id)] {
+						all = false
+					}
+				}
+				if all {
+					for i, l := range x.Lhs {
+						o := p.Info.ObjectOf(l.(*ast.Ident))
+						saved := ev
+						ev = nil
+						emit(x.Rhs[i])
+						captured := ev
+						ev = saved
+						pending[o] = append(pending[o], captured...)
+						deferredInto = append(deferredInto, o)
+					}
+					return
+				}
+			}
 			for _, r := range x.Rhs {
 				if call, ok := r.(*ast.CallExpr); ok && isWrite(call) {
 					args := call.Args
@@ -624,6 +732,38 @@ func (p *Program) printEventsDepth(str *types.Func, depth int) []slotEvent {
 			}
 		case *ast.ExprStmt:
 			if call, ok := x.X.(*ast.CallExpr); ok {
+				// a package helper that writes into the same buffer: its body is
+				// part of the printer, with the arguments in place of its parameters
+				if callee, _ := typeutil.Callee(p.Info, call).(*types.Func); callee != nil && !isWrite(call) && callee.Pkg() == p.Types && callee != str && depth < 2 {
+					if hd := p.FuncDecls[callee]; hd != nil && hd.Body != nil && hd.Type.Params != nil && len(subst) == 0 {
+						takesBuf := false
+						var params []*ast.Ident
+						for _, f := range hd.Type.Params.List {
+							params = append(params, f.Names...)
+						}
+						if len(params) == len(call.Args) {
+							for i, a := range call.Args {
+								t := p.Info.TypeOf(a)
+								if t != nil && (strings.HasSuffix(t.String(), "strings.Builder") || strings.HasSuffix(t.String(), "bytes.Buffer")) {
+									takesBuf = true
+								}
+								if o := p.Info.Defs[params[i]]; o != nil {
+									subst[o] = a
+								}
+							}
+						}
+						if takesBuf {
+							walk(hd.Body)
+							for k := range subst {
+								delete(subst, k)
+							}
+							return
+						}
+						for k := range subst {
+							delete(subst, k)
+						}
+					}
+				}
 				if isWrite(call) {
 					if sel := call.Fun.(*ast.SelectorExpr); sel.Sel.Name == "Fprintf" {
 						emit(call)
